@@ -84,14 +84,15 @@ def check_accumulator_allocation(P, R, rule="DTYPE.accumulator"):
 def check_reduce_cover(P, R):
     """reduce_indices_means_vars collects component i of every block's statistics."""
     f = P.func("kmeans:reduce_indices_means_vars")
-    for nm, idx in (("means_sum", 1), ("variances_sum", 2), ("closest_centroid_indices", 0)):
+    prm = f.value_params[0]
+    for idx, what in ((0, "assignments"), (1, "sums of x"), (2, "sums of x^2")):
         ok = False
-        for st, t, v, k in stores(f):
-            if isinstance(t, ast.Name) and t.id == nm and isinstance(v, ast.ListComp):
-                g = v.generators[0]
-                ok = isinstance(g.iter, ast.Name) and g.iter.id == f.value_params[0] and not g.ifs and isinstance(v.elt, ast.Subscript) and const_value(v.elt.slice) == idx
-        R.check(ok, "COVER.blocks", f.key, f"{nm} collected from every block (component {idx})", "", f"{nm} is not collected from component {idx} of every block's statistics")
-
+        for n_ in walk_no_nested(f.node):
+            if isinstance(n_, ast.ListComp) and len(n_.generators) == 1:
+                g = n_.generators[0]
+                if isinstance(g.iter, ast.Name) and g.iter.id == prm and not g.ifs and isinstance(n_.elt, ast.Subscript) and const_value(n_.elt.slice) == idx and isinstance(n_.elt.value, ast.Name) and isinstance(g.target, ast.Name) and n_.elt.value.id == g.target.id:
+                    ok = True
+        R.check(ok, "COVER.blocks", f.key, f"component {idx} ({what}) collected from every block", "", f"the per-block {what} (component {idx}) are not collected from every block of `{prm}`")
 
 def _rest(P, R):
     g = P.func("gmm:GMMMachine.initialize_gaussians")
